@@ -90,6 +90,43 @@ package common
 //@   loop 1 invariant forall k in 0..inLen :: (bytes(ptrs[k]) == be(val(in[k])) && arr(ptrs[k]) != arr(data) && allocated(ptrs[k]))
 //@   loop 1 invariant [C16.frame-prefix] bytes(data) == framei(le64(inLen), elems(in), off(in), $iter, bvheap())
 
+//@ define hashB(in) = hashfn(15, frameb(le64(len(in)), elems(in), off(in), len(in), byteheap()))
+
+//@ func SHA512_256
+//@   deadpoints 2
+//@   props C16 C06 C12
+//@   requires [input-count] len(in) <= 8192
+//@   ensures [C16.empty] len(in) == 0 ==> isnil(result)
+//@   ensures [C16.framing] len(in) > 0 ==> (!isnil(result) && fresh(result) && bytes(result) == old(hashB(in)) && len(result) == 32)
+//@   loop 0 invariant 0 <= bzSize && bzSize <= $iter * 281474976710656 && inLen == len(in)
+//@   loop 1 invariant inLen == len(in) && fresh(data) && allocated(data)
+//@   loop 1 invariant forall a :: (!fresh(a) ==> byteheap()[a] == old(byteheap())[a])
+//@   loop 1 invariant [C16.frame-prefix] bytes(data) == frameb(le64(inLen), elems(in), off(in), $iter, old(byteheap()))
+
+// tagT: digest of the one-element frame of the tag (written twice in front of the data)
+//@ define tagT(tag) = hashfn(15, cat(cat(cat(le64(1), bytes(tag)), single(36)), le64(len(tag))))
+//@ define hashT(tag, in) = beint(hashfn(15, cat(cat(tagT(tag), tagT(tag)), framei(le64(len(in)), elems(in), off(in), len(in), bvheap()))))
+
+//@ func SHA512_256i_TAGGED
+//@   deadpoints 2
+//@   props C16 C06 C12 C10
+//@   requires [input-count] len(in) <= 8192
+//@   ensures [C16.empty] len(in) == 0 ==> result == nil
+//@   ensures [C16.tagged-framing] len(in) > 0 ==> (result != nil && fresh(result) && val(result) == old(hashT(tag, in)))
+//@   ensures len(in) > 0 ==> (0 <= val(result) && bitlen(val(result)) <= 256)
+//@   loop 0 invariant 0 <= bzSize && bzSize <= $iter * 281474976710656 && len(ptrs) == inLen && fresh(ptrs) && inLen == len(in)
+//@   loop 0 invariant forall k in 0..$iter :: (bytes(ptrs[k]) == be(ite(in[k] == nil, 0, val(in[k]))) && allocated(ptrs[k]))
+//@   loop 0 invariant hstate(state) == cat(tagT(tag), tagT(tag)) || isnil(tagBz)
+//@   loop 1 invariant len(ptrs) == inLen && fresh(ptrs) && inLen == len(in) && fresh(data) && allocated(data)
+//@   loop 1 invariant forall k in 0..inLen :: (bytes(ptrs[k]) == be(ite(in[k] == nil, 0, val(in[k]))) && arr(ptrs[k]) != arr(data) && allocated(ptrs[k]))
+//@   loop 1 invariant [C16.frame-prefix] bytes(data) == framei(le64(inLen), elems(in), off(in), $iter, bvheap())
+
+//@ func SHA512_256iOne
+//@   deadpoints 2
+//@   props C16 C06
+//@   ensures in == nil ==> result == nil
+//@   ensures in != nil ==> (result != nil && fresh(result) && val(result) == beint(hashfn(15, be(old(val(in))))))
+
 // ----- hash_utils.go -----
 
 //@ func RejectionSample
